@@ -107,6 +107,8 @@ def step (j : Json) : Json :=
       let soft := match decode F X softCfg A.iface t x with | .ok _ => "ok" | .fault => "fault" | .crash e => "crash:" ++ e
       Json.mkObj [("valid", Json.bool (S.valid x)), ("soft", Json.str soft),
                   ("common", Json.bool (commonForm F X A.tns A.tns t x)),
+                  -- the common form the PROPERTY speaks of: xsi:nil and the empty string read as XSD reads them
+                  ("commonGood", Json.bool (commonForm F { X with nilRule := .xsdBoolean, emptyStringText := true } A.tns A.tns t x)),
                   ("denote", Json.bool (validS (denote (primFacetsA A) A.tns A.tns t) false x))])).toArray)]
   | "conformsX" =>
     -- the hypotheses of `emitted_valid` on a value
